@@ -370,7 +370,11 @@ class ElectronicControlUnit:
         logger.debug("notify subscribers for PGN {}".format(pgn))
         # notify only the CA for which the message is intended
         # each CA receives all broadcast messages
-        for dic in self._subscribers:
+        # iterate over a copy: a callback may unsubscribe itself or others (which used to make the following
+        # subscriber miss this message); a subscriber removed meanwhile is not called any more
+        for dic in list(self._subscribers):
+            if not any(d is dic for d in self._subscribers):
+                continue
             if (dic['dev_adr'] == None) or (dest == ParameterGroupNumber.Address.GLOBAL) or (callable(dic['dev_adr']) and dic['dev_adr'](dest)) or (dest == dic['dev_adr']):
                 dic['cb'](priority, pgn, sa, timestamp, data)
 
